@@ -124,6 +124,11 @@ func (p *MP4ChunkParser) readUntil(contentEnd int) error {
 		}
 		n, err := p.r.Read(p.buf[p.contentEnd:contentEnd])
 		p.contentEnd += n
+		if err == io.EOF && p.contentEnd >= contentEnd {
+			// io.EOF delivered together with the last bytes asked for.
+			// It is reported again by the next Read.
+			return nil
+		}
 		if err != nil {
 			return err
 		}
